@@ -1424,7 +1424,9 @@ fn ep_iter(q: &mut AnyQ, _m: &mut Model, which: ItKind, prog: &[ItOp], cx: &mut 
     let (ys, problems, name): (Vec<(bool, P3)>, Vec<(&'static str, String)>, &'static str) = match which {
         ItKind::Iter => both!(q, qq => {
             let reference: Vec<u32> = qq.iter().map(|(k, _)| k.id()).collect();
-            let (o, _) = run_prog(Dbl(qq.iter()), prog, n, Some(&reference), &idr, &mut |_| {});
+            // half of the episodes obtain the iterator the way `for x in &queue` does
+            let it = if prog.len() % 2 == 0 { (&*qq).into_iter() } else { qq.iter() };
+            let (o, _) = run_prog(Dbl(it), prog, n, Some(&reference), &idr, &mut |_| {});
             (o.yielded.iter().map(conv_ref).collect(), o.problems, "iter")
         }),
         ItKind::IntoIter => both!(q.clone(), qq => {
